@@ -703,6 +703,75 @@ theorem C04_handler_depth (arity : Nat) (code : List Sym) (hc : checkHandlerDept
     · exact h
     · simp [h] at hsafe
 
+/-- **C04_clause_entry_depth.**  If `checkHandlerDepth arity code` accepts, then on EVERY path every
+`CheckHandler` executes under a handler of this activation and with exactly ONE operand (the clause's
+filter class) above the depth `rd` that handler recorded: popping it leaves depth `rd`.  Hence every
+catch clause — the first one, entered by the unwind at `rd` (`C04_unwind_restores`), and every later
+one, entered by the jump of a clause that declined the error — starts from the same layout, the one
+live at the `try`, and the clause that accepts the error binds it at slot `rd`, the slot
+`Compiler::catch` assigns to its variable; nothing a declining clause pushed (e.g. the box of a
+captured catch variable) is left behind for the later clauses and for the code after the `try`. -/
+theorem C04_clause_entry_depth (arity : Nat) (code : List Sym) (hc : checkHandlerDepth arity code = true) :
+    ∀ pc d hs l, (depthFlow arity code).Reach (pc, (d, hs)) → code[pc]? = some (.CheckHandler l) →
+      ∃ cl rd r, hs = (cl, rd) :: r ∧ d = rd + 1 := by
+  unfold checkHandlerDepth at hc
+  split at hc
+  · cases hc
+  · rename_i A _
+    intro pc d hs l hr hi
+    obtain ⟨_, hsafe⟩ := Flow.checkCert_safe _ A hc _ hr
+    simp only [depthFlow, depthSucc, hi] at hsafe
+    cases hs with
+    | nil => simp at hsafe
+    | cons h r =>
+      obtain ⟨cl, rd⟩ := h
+      refine ⟨cl, rd, r, rfl, ?_⟩
+      simp only [fallAnd, applyEffect, Sym.stackEffect] at hsafe
+      by_cases h1 : (1 : Int) ≤ (d : Int) + -1
+      · simp only [h1, ↓reduceIte] at hsafe
+        by_cases h2 : ((d : Int) + -1).toNat = rd
+        · omega
+        · simp [h2] at hsafe
+      · simp [h1] at hsafe
+
+/-- What the compiler emits for
+`fn f(t) { try { t(); } catch e: A { let g = || e; return 1; } catch e2: Error { return 2; } return 0; }`
+when the variable of a clause is declared BEFORE the class test (the box of the captured `e` —
+`EmptyBox` — is pushed at the clause's entry): every path leaves the function by `Return`, so no two
+paths ever meet at different depths, and the recorded depth of the `PushHandler` is right. -/
+def boxBeforeFilter : List Sym :=
+  [.PushHandler 2 0, .GetLocal 1, .Call 0, .Drop, .PopHandler, .Jump 1,
+   .Label 0, .EmptyBox, .GetModSym 0, .CheckHandler 2, .FinishUnwind, .PopHandler, .GetError, .FillBox,
+   .Closure 0, .CaptureIndex (.Local 2), .Constant 1, .Return,
+   .Label 2, .GetModSym 1, .CheckHandler 3, .FinishUnwind, .PopHandler, .GetError, .Constant 2, .Return,
+   .Label 3, .ContinueUnwind, .Label 1, .Constant 3, .Return]
+
+/-- the same function as `Compiler::catch` emits it: the variable is declared after the handler is popped -/
+def boxAfterFilter : List Sym :=
+  [.PushHandler 2 0, .GetLocal 1, .Call 0, .Drop, .PopHandler, .Jump 1,
+   .Label 0, .GetModSym 0, .CheckHandler 2, .FinishUnwind, .PopHandler, .EmptyBox, .GetError, .FillBox,
+   .Closure 0, .CaptureIndex (.Local 2), .Constant 1, .Return,
+   .Label 2, .GetModSym 1, .CheckHandler 3, .FinishUnwind, .PopHandler, .GetError, .Constant 2, .Return,
+   .Label 3, .ContinueUnwind, .Label 1, .Constant 3, .Return]
+
+/-- **C04_witness_box_before_filter.**  The clause of `checkHandlerDepth` at `CheckHandler` is what
+rejects the first stream (handlers balanced, `PushHandler` depth right, no conflicting merge); the
+second is accepted.  Run-time consequence on the mechanism model: when the first clause declines, the
+second binds the error ONE SLOT ABOVE the slot the unwind restored — the compiled code reads its
+variable (and every later local) one slot too low. -/
+theorem C04_witness_box_before_filter :
+    checkHandlerBalance boxBeforeFilter = true ∧ checkHandlerDepth 1 boxBeforeFilter = false ∧
+    checkHandlerBalance boxAfterFilter = true ∧ checkHandlerDepth 1 boxAfterFilter = true ∧
+    (let f : Fiber := { stack := [.nil, .str "f", .str "t"], frames := [⟨0, 40, 0⟩, ⟨1, 11, 1⟩], cur := 1,
+                        handlers := [⟨13, 2, 2⟩], error := some (.inst otherErr 0), unwinding := true, ip := 13 }
+     -- as emitted: the second clause binds the error right above `f`'s slots
+     (catchChain [.cls myErr, .cls errorCls] f).view.2.2.map (·.stack)
+        = some [.nil, .str "f", .str "t", .inst otherErr 0] ∧
+     -- with the box pushed first and left by the declining clause: one slot higher
+     (catchChainFrom 1 [.cls errorCls] (f.push .undef)).view.2.2.map (·.stack)
+        = some [.nil, .str "f", .str "t", .undef, .inst otherErr 0]) := by
+  refine ⟨by decide +kernel, by decide +kernel, by decide +kernel, by decide +kernel, by decide +kernel⟩
+
 /-! ### Regression facts: the repaired defects D1 and D3 on the model of the code as it was -/
 
 /-- `fn f(a, b) { try { raise Error('x'); } catch e: Error { } print(a); }`: the stream `f` is
@@ -813,10 +882,18 @@ changing a `PopHandler` emission in the Rust text re-opens this lemma. -/
 theorem Gen_exitRules_eq_model : Gen.exitRules = modelExitRules Gen.tryAttributesIsStack := by
   decide +kernel
 
-/-- **[G]** order of the emissions of `try_` and `catch` that `lowerStmt`/`lowerCatches` mirror -/
+/-- **[G]** order of the emissions of `try_` and `catch` that `lowerStmt`/`lowerCatches` and the
+mechanism model's `catchChainFrom`/`enterClause` mirror.  For `catch` the row also pins WHERE the
+clause's variable gets its slot: the filter class is the first thing a clause pushes
+(`variable_get` directly before `CheckHandler`), and the variable is declared — which for a captured
+variable emits `EmptyBox` — only after `FinishUnwind; PopHandler`, i.e. on the path of the clause
+that ACCEPTED the error, directly before `GetError` fills it.  Declaring it earlier (before the
+class test) re-opens this lemma: a declining clause would then leave the box behind
+(`C04_witness_box_before_filter`). -/
 theorem Gen_tryEmission_eq_model :
     Gen.tryEmission = ["PushHandler", "block", "PopHandler", "Jump", "Label", "catch", "ContinueUnwind", "Label"] ∧
-    Gen.catchEmission = ["CheckHandler", "FinishUnwind", "PopHandler", "GetError", "block", "Jump", "Label"] := by
+    Gen.catchEmission = ["variable_get", "CheckHandler", "FinishUnwind", "PopHandler", "declare_variable", "GetError",
+                         "define_variable", "block", "Jump", "Label"] := by
   decide +kernel
 
 /-- **[G]** `apply_stack_effects` starts counting at 1 (slot 0) -/
@@ -838,6 +915,28 @@ example : checkHandlerBalance (removeDead (lowerFun false d3Skel) false) = true 
     checkHandlerDepth 2 (applyPass true true true 2 d1Pre) = true ∧
     checkHandlerDepth 2 (applyPass true true false 2 d1Pre) = true ∧
     checkHandlerDepth 2 (applyPass true false false 2 d1Pre) = true := by decide +kernel
+
+/-- `try { raise } catch e: A { || e; op } catch e2: B { || e2; return } catch e3: C { op }` -/
+def capTry : Stmt := .try_ [.raise_] [[.capture, .op], [.capture, .return_], [.op]]
+/-- the same kind of try inside a loop, with `break`/`continue` in the clauses -/
+def capLoop : Stmt := .while_ [.try_ [.op, .raise_] [[.capture, .break_], [.capture, .op], [.continue_]], .op]
+def capCode : List Sym := removeDead (lowerFun false [capTry, .op]) false
+def capLoopCode : List Sym := removeDead (lowerFun false [capLoop, capTry, .op]) false
+
+/-- The lowering model with CAPTURED clause variables (`lowerCatches`: `EmptyBox` after
+`FinishUnwind; PopHandler`, `FillBox` after `GetError`): the box of a captured variable is created on
+the path of the clause that accepted the error, so every clause is entered at the recorded depth and
+the stream passes both verified checkers under the repaired stack pass and under the pass of the tree
+at hand (`C04_clause_entry_depth` applies to it); handlers stay balanced with such clauses in a loop
+left by `break`/`continue`.  (The skeleton model does not emit the `Drop`s of locals that
+`break`/`continue` make, so the depth checker is only meaningful on skeletons without them.) -/
+theorem C04_lower_captured_clause_variable :
+    checkHandlerBalance capCode = true ∧
+    checkHandlerDepth 2 (applyPass true true true 2 capCode) = true ∧
+    checkHandlerDepth 0 (applyPass Gen.handlerDepthCountsParams Gen.stackPassFollowsLabels
+      Gen.stackPassSkipsDeadLabels 0 capCode) = Gen.stackPassFollowsLabels ∧
+    checkHandlerBalance capLoopCode = true := by
+  refine ⟨by decide +kernel, by decide +kernel, by decide +kernel, by decide +kernel⟩
 
 /-- **Not proved** (stated; checked by `drv_handlers lower` on every skeleton up to a size bound, and by
 the checker on every function the real compiler emits): the repaired lowering is balanced, and the
